@@ -334,7 +334,7 @@ pub fn run_scenario(sc: &Scenario, cont_depth: usize, errnos: &[i32], ctx: &Ctx)
     };
     let size = sc.history[sc.target];
     let pre_matched = live.prev.clone().expect("prefix state observed");
-    fsfault::begin(&live.sb.dir.clone(), Plan { fail: vec![], snapshots: true, kinds: vec![] });
+    fsfault::begin(&live.sb.dir.clone(), Plan { fail: vec![], snapshots: true, kinds: vec![], short: vec![] });
     fsfault::arm();
     let r = live.append(w, size, sc.arm_before.contains(&sc.target));
     fsfault::disarm();
@@ -391,7 +391,7 @@ pub fn run_scenario(sc: &Scenario, cont_depth: usize, errnos: &[i32], ctx: &Ctx)
             Ok(l) => l,
             Err(_) => return None,
         };
-        fsfault::begin(&live.sb.dir.clone(), Plan { fail: fails.to_vec(), snapshots: false, kinds: vec![] });
+        fsfault::begin(&live.sb.dir.clone(), Plan { fail: fails.to_vec(), snapshots: false, kinds: vec![], short: vec![] });
         fsfault::arm();
         let r = live.append(w, size, sc.arm_before.contains(&sc.target));
         fsfault::disarm();
